@@ -391,11 +391,11 @@ def execute(plan, tape):
                     # the portfolio reported the failure: it stays usable for the next query
                     sat_mode = False
                     probe("continued_after_reported_failure")
-                    if tape.chance(1, 2, "ask.after.failure") and symbols:
+                    if (state.get("had_model") or tape.chance(1, 2, "ask.after.failure")) and symbols:
                         # a (mistaken) value request right after the failure: any exception is fine,
                         # a call that never returns is not
                         try:
-                            if tape.chance(1, 2, "ask.after.failure.model"):
+                            if state.get("had_model") or tape.chance(1, 2, "ask.after.failure.model"):
                                 mdl_ = api("get_model", pf.get_model)
                                 # no member answered this query: a model handed out now is not one of the
                                 # current assertions unless it happens to satisfy them
@@ -457,6 +457,7 @@ def execute(plan, tape):
                         raise Violation("C19:model-unsat", "get_model() after sat returned %s which falsifies %s" %
                                         (a, bp.pretty(f)))
                 probe("get_model_checked")
+                state["had_model"] = True      # (a model was handed out for an earlier query)
             elif k == "get_values":
                 if not sat_mode:
                     continue
